@@ -8,10 +8,11 @@ pub mod refimpl;
 macro_rules! with_property {
     ($id:expr, $f:ident, $($arg:expr),*) => {
         match $id {
+            "C01" => Some($f::<$crate::props::c01::C01>($($arg),*)),
             "C02" => Some($f::<$crate::props::c02::C02>($($arg),*)),
             _ => None,
         }
     };
 }
 
-pub const ALL_IDS: &[&str] = &["C02"];
+pub const ALL_IDS: &[&str] = &["C01", "C02"];
